@@ -163,10 +163,15 @@ def drive(ctx, strategy, body, max_examples, shrink=True, tag=""):
 
     seed = (ctx.seed * 1000 + ctx.shard) * 131 + (int(hashlib.sha256(tag.encode()).hexdigest(), 16) % 97)
 
+    calls = [0]
+
     @hypothesis.seed(seed)
-    @hyp_settings(max_examples, shrink=shrink)
+    @hyp_settings(max_examples + (1 if ctx.shard > 0 else 0), shrink=shrink)
     @given(strategy)
     def test(case):
+        calls[0] += 1
+        if calls[0] == 1 and ctx.shard > 0 and ctx._last_violation is None:
+            return   # Hypothesis always starts with the all-simplest example: run it in shard 0 only, not 16 times
         ctx.count()
         body(case)
 
